@@ -85,6 +85,8 @@ def run(tier, seed):
         okp = len(r.paths) == 1 and r.paths[0]['end'] == 'panic' and r.paths[0]['panic'] == 'err:zero-length DST' and not any(n['op'] == 'sha256' for n in r.nodes)
         if not ck.ground('C09.nodst%d' % i, '%s DST panics with errZeroLenDST before anything is hashed' % ('nil' if i else 'empty'), okp):
             failures.append('nodst')
+    if any('.value' in f for f in failures) and not ck.violations:
+        wide_battery(ck, failures)
     if (failures or any(not o['ok'] for o in ck.obls)) and not ck.violations:
         import random
         rng = random.Random(ck.seed + 13)
@@ -101,7 +103,33 @@ def run(tier, seed):
     return ck.finish()
 
 
+def wide_battery(ck, failures):
+    """the reduction step fed directly with boundary expander outputs (they have no known msg/DST preimage)"""
+    C = 2**256 % N
+    his = [2**128 - 1, 2**128 - 2, 2**127, 1, 0, 2**64, 2**64 - 1]
+    los = [2**256 - 1, 2**256 - 2**64, N - 1, N, N + 1, 2**255, 0, 2**192 - 1]
+    vals = [hi * 2**256 + lo for hi in his for lo in los]
+    for hi in his[:3]:
+        for k in (0, 1, 2):
+            lo = (k + 1) * 2**256 - 1 - hi * C   # lo + hi*C just below a multiple of 2^256
+            for d in (0, 1, 2**64, 2**128):
+                if 0 <= lo - d < 2**256:
+                    vals.append(hi * 2**256 + lo - d)
+                if 0 <= lo + d + 1 < 2**256:
+                    vals.append(hi * 2**256 + lo + d + 1)
+    vals += [2**384 - 1, 2**383, N * 2**128, N * 2**128 - 1]
+    path = ck.save_replay({'property': 'C09', 'pkg': 'scalar', 'cases': [{'kind': 'wide', 'a': '%096x' % v} for v in vals], 'failed': failures[:5]})
+    ok, out = core.go_test(path, pkg='scalar')
+    if not ok and 'MISMATCH' in out:
+        ck.violation('wide-reduction', 'the 48-byte reduction step is not OS2IP mod n: %s' % [l.strip() for l in out.splitlines() if 'MISMATCH' in l][:1], path)
+
+
 def replay(path):
+    import json
+    if json.load(open(path)).get('pkg') == 'scalar':
+        ok, out = core.go_test(path, pkg='scalar')
+        print(out)
+        return 0 if ok else 1
     ok, out = core.go_test(path)
     print(out)
     return 0 if ok else 1
